@@ -230,7 +230,8 @@ ArchObsViol(w, wid, x, keep, at) ==
 
 \* direct-handle records minted by the mint-all of this observation
 MintRecs(w, x) == {[d |-> x.mint[i][2][2], t |-> x.mint[i][1], a |-> x.a, born |-> w.rm[x.a + 1], bornc |-> w.cr[x.a + 1], src |-> "mint"] :
-                      i \in {j \in DOMAIN x.mint : x.mint[j][2][1] = "d"}}
+                      i \in {j \in DOMAIN x.mint : x.mint[j][2][1] = "d" /\ x.mint[j][1] \in DOMAIN w.alive}}
+\* (a listed handle that is not a live entity of the contract is reported by ArchObsViol; it gets no record)
 
 \* C09: a token minted for two different live entities at the same time
 MintClash(w, at) ==
@@ -250,7 +251,7 @@ GoodFor(w, r, t) ==
     CASE r[1] = "y" -> TRUE
       [] r[1] = "i" -> r[2] = t
       [] r[1] = "d" -> DesignatesByDirect(w, r[2], t)
-      [] r[1] = "s" -> r[2] = t /\ r[3] = w.alive[t].vals
+      [] r[1] = "s" -> r[2] = t /\ t \in DOMAIN w.alive /\ r[3] = w.alive[t].vals
       [] r[1] = "f" -> r[2] = t /\ DesignatesByDirect(w, r[3], t)
       [] OTHER      -> FALSE
 
